@@ -724,3 +724,27 @@ def finish(ctx, totals, samples, exh_logs, exh_offsets):
                         'python oracle decides. non-trivial = result has a non-empty table or is a discard; distinct = distinct (operation, result line)' % exh_logs,
                    samples=samples[:8] or ['(none)'], distribution=dist, correspondence_cases=totals['evaluations'] if ctx.model else 0,
                    oracle_failures=totals['bad'], merged_line_instances=len(totals['findings']))
+
+# ---------------------------------------------------------------------------------------------------------------
+# C13: malformed .ninja_log streams for the aggregator of tools/props/c13.py (crash/sanitizer only, no oracle)
+def fuzz_lines(rnd, n):
+    L = []
+    def both(f):
+        h = hexs(f) if f else '-'
+        L.append('load ' + h); L.append('recompact %s -' % h)
+    heads = [b'# ninja log v7\n', b'# ninja log v6\n', b'# ninja log v5\n', b'# ninja log v4\n', b'# ninja log v99999999999999999999\n', b'# ninja log v-1\n', b'# ninja log v\n', b'# ninja log v7', b'', b'\n', b'#\n']
+    toks = [b'\t', b'\t\t', b'\n', b'\r\n', b'0', b'1', b'-1', b'18446744073709551616', b'99999999999999999999999', b'out', b'a b', b'deadbeef', b'ffffffffffffffffff', b'xyz', b'\0', b' ', b'#', b'+5', b'0x10']
+    # structured edge cases: each number of fields, empty fields, missing final newline, very long lines around the reader's buffer
+    for h in heads:
+        for nf in range(0, 8):
+            for last_nl in (b'\n', b''):
+                both(h + b'\t'.join([b'1', b'2', b'3', b'out', b'abc', b'x', b'y'][:nf]) + last_nl)
+                both(h + b'\t' * nf + last_nl)
+    for size in (255, 256, 257, 1 << 18, (1 << 18) - 1, (1 << 18) + 1, (1 << 18) - 12, 3 << 17):
+        both(heads[0] + b'1\t2\t3\t' + b'n' * size + b'\tabc\n' + b'4\t5\t6\tnext\tdef\n')
+        both(heads[0] + b'x' * size)
+    while len(L) < n:
+        h = rnd.choice(heads) if rnd.random() < 0.85 else bytes(rnd.randrange(256) for _ in range(rnd.randrange(0, 20)))
+        body = b''.join(rnd.choice(toks) if rnd.random() < 0.9 else bytes(rnd.randrange(256) for _ in range(rnd.randrange(1, 4))) for _ in range(rnd.randrange(0, 40)))
+        both(h + body)
+    return L
